@@ -1,6 +1,6 @@
 (* C15 — property theorems. Nothing but statements closed by [exact]. *)
 From Coq Require Import String ZArith List Bool Reals.
-From XV Require Import Base.Scalar Base.RInst Model.DecompLib Gen.T3 Gen.T8 Proofs.C15_proofs.
+From XV Require Import Base.Scalar Base.RInst Model.DecompLib Gen.T3 Gen.T8 Proofs.C15_proofs Proofs.C15_opts.
 Import ListNotations.
 Open Scope R_scope.
 
@@ -86,3 +86,19 @@ Theorem C15_kwargs_reach_solver :
   existsb (fun s => match snd s with ToSolver => true | _ => false end) kw_sites = true.
 Proof. exact kwargs_reach_solver. Qed.
 Print Assumptions C15_kwargs_reach_solver.
+
+(* the options the decomposition front-ends themselves hand to the back-ends, regenerated from the source: nothing but the
+   number of modes, the seed, the iterative complex solver, and two defaults a user can override (compute, 4 power iterations) *)
+Theorem C15_solver_options_in_source :
+  dec_solver_options =
+  [("merge", "n_components", "self.n_modes_precompute"); ("merge", "random_state", "self.random_state");
+   ("merge", "k", "self.n_modes_precompute"); ("merge", "random_state", "self.random_state"); ("merge", "solver", "'lobpcg'");
+   ("merge", "k", "self.n_modes_precompute"); ("merge", "seed", "self.random_state");
+   ("default", "compute", "self.compute"); ("default", "n_power_iter", "4")]%string /\
+  svd_solver_options =
+  [("merge", "n_components", "self.n_modes_precompute"); ("merge", "random_state", "self.random_state");
+   ("merge", "k", "self.n_modes_precompute"); ("merge", "random_state", "self.random_state"); ("merge", "solver", "'lobpcg'");
+   ("merge", "k", "self.n_modes_precompute"); ("merge", "seed", "self.random_state");
+   ("default", "compute", "False"); ("default", "n_power_iter", "4")]%string.
+Proof. exact solver_options_known. Qed.
+Print Assumptions C15_solver_options_in_source.
